@@ -406,6 +406,22 @@ def toy_curves(p: int, prime_order=True):
     return res
 
 
+_FAMILY: list = []
+
+
+def shared_base_family(limit=1500):
+    """toy curves y^2 = x^3 + 3 with the SAME base point G = (1, 2) over different primes p = 3 mod 4 (prime group order):
+    Generator is a tuple subclass, so such generators are equal and hash alike as tuples although they are different
+    groups: any memo keyed by the generator object (lru_cache on a method, a dict keyed by self) confuses them"""
+    if not _FAMILY:
+        for p in range(7, limit):
+            if p % 4 == 3 and is_prime(p) and (27 * 9) % p != 0:
+                n = len(curve_points(p, 0, 3)) + 1
+                if is_prime(n) and n > 2:
+                    _FAMILY.append("toy:%d:0:3:1:2:%d" % (p, n))
+    return _FAMILY
+
+
 TOY_PRIMES_SMALL = [p for p in range(5, 64) if is_prime(p) and p % 4 == 3]
 TOY_PRIMES_MID = [67, 71, 79, 83, 103, 127, 131, 199, 251, 307, 419, 503, 607, 811, 907, 991, 1019]
 
